@@ -27,11 +27,12 @@ const (
 	Replay1         // before this query, the query sent 1 exchange earlier is delivered again (its answer is dropped)
 	Replay2         // ... 2 exchanges earlier
 	Replay130       // ... 130 exchanges earlier
+	Foreign         // the query reaches the server from another source address (resolver pool, NAT rebinding): the server refuses it and the client gets that refusal
 	NumFates
 )
 
 func (f Fate) String() string {
-	return [...]string{"deliver", "query-lost", "answer-lost", "query-dup", "replay-1", "replay-2", "replay-130"}[f]
+	return [...]string{"deliver", "query-lost", "answer-lost", "query-dup", "replay-1", "replay-2", "replay-130", "refused-foreign-source"}[f]
 }
 
 // DnsPath describes what the network between DNS client and server does.
@@ -178,7 +179,9 @@ func (d *DgramConn) push(b []byte) {
 }
 
 // serve hands one packed query to the server handler; returns the packed answer or nil.
-func (d *DgramConn) serve(exch int, packed []byte) []byte {
+func (d *DgramConn) serve(exch int, packed []byte) []byte { return d.serveFrom(exch, packed, nil) }
+
+func (d *DgramConn) serveFrom(exch int, packed []byte, source net.Addr) []byte {
 	if d.path != nil && d.path.QueryWire != nil {
 		if packed = d.path.QueryWire(exch, append([]byte{}, packed...)); packed == nil {
 			return nil
@@ -204,7 +207,9 @@ func (d *DgramConn) serve(exch int, packed []byte) []byte {
 		}()
 		if d.srv.on != nil {
 			from := net.Addr(d.local)
-			if d.path != nil && d.path.From != nil {
+			if source != nil {
+				from = source
+			} else if d.path != nil && d.path.From != nil {
 				if a := d.path.From(exch); a != nil {
 					from = a
 				}
@@ -287,6 +292,10 @@ func (d *DgramConn) Write(p []byte) (int, error) {
 			d.push(a)
 		}
 		if a := d.serve(exch, q); a != nil {
+			d.push(a)
+		}
+	case Foreign:
+		if a := d.serveFrom(exch, q, &net.UDPAddr{IP: net.IPv4(198, 51, 100, 77), Port: 5353}); a != nil {
 			d.push(a)
 		}
 	case Replay1, Replay2, Replay130:
